@@ -98,24 +98,31 @@ type SV struct {
 	Idx  map[int64]*SV  // materialised elements of a slice/array value (constant indices)
 }
 
-func (v *SV) deep() *SV {
+func (v *SV) deep() *SV { return v.deepMemo(map[*SV]*SV{}) }
+
+// deepMemo copies a value graph preserving sharing (pointer locals alias the cells they point to).
+func (v *SV) deepMemo(memo map[*SV]*SV) *SV {
 	if v == nil {
 		return nil
 	}
+	if n, ok := memo[v]; ok {
+		return n
+	}
 	n := &SV{Nil: v.Nil, Bool: v.Bool, Cmp: v.Cmp}
+	memo[v] = n
 	if v.L != nil {
 		n.L = v.L.clone()
 	}
 	if v.F != nil {
 		n.F = map[string]*SV{}
 		for k, f := range v.F {
-			n.F[k] = f.deep()
+			n.F[k] = f.deepMemo(memo)
 		}
 	}
 	if v.Idx != nil {
 		n.Idx = map[int64]*SV{}
 		for k, f := range v.Idx {
-			n.Idx[k] = f.deep()
+			n.Idx[k] = f.deepMemo(memo)
 		}
 	}
 	return n
@@ -176,8 +183,15 @@ type symState struct {
 
 func (s *symState) fork() *symState {
 	n := &symState{env: map[types.Object]*SV{}, alias: map[types.Object]types.Object{}}
-	for k, v := range s.env {
-		n.env[k] = v.deep()
+	memo := map[*SV]*SV{}
+	var keys []types.Object
+	for k := range s.env {
+		keys = append(keys, k)
+	}
+	// containers before the pointer locals that alias their cells (a shared cell must be copied once)
+	sort.SliceStable(keys, func(i, j int) bool { return keys[i].Pos() < keys[j].Pos() })
+	for _, k := range keys {
+		n.env[k] = s.env[k].deepMemo(memo)
 	}
 	for k, v := range s.alias {
 		n.alias[k] = v
@@ -625,9 +639,25 @@ func (si *symInterp) stmt(st ast.Stmt, fr *symFrame, s *symState) []*symState {
 			if len(st.Lhs) == len(st.Rhs) {
 				vals := make([]*SV, len(st.Rhs))
 				for i, r := range st.Rhs {
+					// p := &x.f[k]: the local shares the cell it points to (writes through p reach x)
+					if ue, ok := stripParens(r).(*ast.UnaryExpr); ok && ue.Op == token.AND && st.Tok == token.DEFINE {
+						if cell, _ := si.lvalue(ue.X, fr, s); cell != nil {
+							vals[i] = cell
+							continue
+						}
+					}
 					vals[i] = si.eval(r, fr, s).deep()
 				}
 				for i, l := range st.Lhs {
+					// a pointer local keeps the very cell (no copy)
+					if ue, ok := stripParens(st.Rhs[i]).(*ast.UnaryExpr); ok && ue.Op == token.AND && st.Tok == token.DEFINE {
+						if id, isID := stripParens(l).(*ast.Ident); isID && id.Name != "_" {
+							if o := fr.info.Defs[id]; o != nil && vals[i] != nil {
+								s.env[o] = vals[i]
+								continue
+							}
+						}
+					}
 					si.store(l, vals[i], fr, s)
 				}
 				return one
